@@ -222,10 +222,12 @@ class Namer:
         self.self_ty = st
         self.params = {}
         self.param_adts = {}
+        import frozen
+        pren = frozen.params(inst)          # a renamed parameter stands for the name the reference uses
         for i in range(1, inst["arg_count"] + 1):
             nm = inst["locals"][i].get("name")
             if nm:
-                self.params[nm] = self.rename.get(nm, nm)
+                self.params[nm] = self.rename.get(pren.get(nm, nm), pren.get(nm, nm))
                 t_ = F.types[inst["locals"][i]["ty"]]
                 if t_["k"] == "ref":
                     t_ = F.types[t_["to"]]
@@ -251,7 +253,7 @@ class Namer:
             ty = self.self_ty
         elif isinstance(cur, tuple) and cur and cur[0] == "var" and cur[1] in self.param_adts and steps:
             ty = self.param_adts[cur[1]]
-            root_name = self.rename.get(cur[1], cur[1])
+            root_name = self.params.get(cur[1], self.rename.get(cur[1], cur[1]))
         else:
             return None
         variant = 0
@@ -269,7 +271,8 @@ class Namer:
             fs = ty["variants"][variant]["fields"]
             if not isinstance(x, int) or x >= len(fs):
                 return None
-            names.append(fs[x].get("name", str(x)))
+            import frozen
+            names.append(frozen.fields(ty, variant)[x])
             ty = self.F.types[fs[x]["ty"]]
             variant = 0
         return "_".join(names)
@@ -503,6 +506,8 @@ def run_specs(chk, F, specs, floor_n):
             nfun += 1
             where = span_str(inst.get("span"))
             before_ = len(jobs)
+            # helpers the reference does not mention are inlined when they are straight-line (algsum.fn_body)
+            algsum.VOCAB = set(re.findall(r"[A-Za-z_][A-Za-z_0-9]*", json.dumps([spec.get(k_) for k_ in ("rules", "fields", "let", "variant_rules", "assume", "rename")])))
             if spec["kind"] == "ctor":
                 build_ctor_jobs(chk, F, inst, spec, key, where, jobs, ctx)
             elif spec["kind"] == "ts":
@@ -551,7 +556,8 @@ def build_ctor_jobs(chk, F, inst, spec, key, where, jobs, ctx):
         chk.violation("anchor", key + ":literal", "the struct literal %s { .. } was not found in %s" % (spec["struct"], spec["fn"]), where=where)
         return
     sty = next((t for t in F.types if t["k"] == "adt" and t["name"] == spec["struct"] and t["krate"] == "rand_distr" and t["variants"]), None)
-    names = [f.get("name", str(i)) for i, f in enumerate(sty["variants"][0]["fields"])] if sty else []
+    import frozen
+    names = frozen.fields(sty, 0) if sty else []
     c = {"kind": "ctor", "spec": spec, "where": where, "fields": [], "undecided": []}
     for i, op in enumerate(agg["ops"]):
         fname = names[i] if i < len(names) else str(i)
